@@ -317,19 +317,37 @@ def trunc : F64 → Option Int
 
 /-! ## Formatting -/
 
-def padLeft (s : String) (n : Nat) : String :=
-  String.ofList (List.replicate (n - s.length) '0') ++ s
+/-- the ASCII digit of `d < 10` -/
+def digitChar (d : Nat) : Char := Char.ofNat (48 + d)
 
-/-- `f'{x:.{n}f}'` (also `'%.{n}f' % x`) -/
-def fmtFixed (x : F64) (n : Nat) : String :=
+/-- digits of `n` pushed in front of `acc` (structural on the fuel; `n + 1` is always enough) -/
+def natDecAux : Nat → Nat → List Char → List Char
+  | 0, _, acc => acc
+  | fuel + 1, n, acc =>
+    if n < 10 then digitChar n :: acc else natDecAux fuel (n / 10) (digitChar (n % 10) :: acc)
+
+/-- decimal digits of a natural number, most significant first (`"0"` for 0); equal to
+`PyStr.natDec` (`Proofs/C14Decimal.lean`) -/
+def natDecT (n : Nat) : List Char := natDecAux (n + 1) n []
+
+/-- the `n` low decimal digits of `k`, most significant first, zero padded -/
+def fracDigits : Nat → Nat → List Char
+  | 0, _ => []
+  | n + 1, k => fracDigits n (k / 10) ++ [digitChar (k % 10)]
+
+/-- `f'{x:.{n}f}'` (also `'%.{n}f' % x`) as a list of characters -/
+def fmtFixedT (x : F64) (n : Nat) : List Char :=
   match x with
-  | nan => "nan"
-  | inf neg => if neg then "-inf" else "inf"
+  | nan => ['n', 'a', 'n']
+  | inf neg => if neg then ['-', 'i', 'n', 'f'] else ['i', 'n', 'f']
   | finite neg m e =>
     let k := rneDiv (m * 2 ^ e * 10 ^ n) one
-    let s := toString (k / 10 ^ n)
-    let s := if n = 0 then s else s ++ "." ++ padLeft (toString (k % 10 ^ n)) n
-    if neg then "-" ++ s else s
+    let s := natDecT (k / 10 ^ n)
+    let s := if n = 0 then s else s ++ '.' :: fracDigits n (k % 10 ^ n)
+    if neg then '-' :: s else s
+
+/-- `f'{x:.{n}f}'` (also `'%.{n}f' % x`) -/
+def fmtFixed (x : F64) (n : Nat) : String := String.ofList (fmtFixedT x n)
 
 /-! ## `sum()` (CPython 3.12 float fast path: Neumaier compensated summation) -/
 
